@@ -46,9 +46,13 @@ func (m *Model) PullBrightness(ctx context.Context, opts ...resource.ReadOption)
 		defer close(send)
 		for change := range recv {
 			value := change.Value.(*traits.Brightness)
-			send <- PullBrightnessChange{
+			select {
+			case <-ctx.Done():
+				return // the subscriber has gone away: nobody may be receiving any more
+			case send <- PullBrightnessChange{
 				Value:      value,
 				ChangeTime: change.ChangeTime,
+			}:
 			}
 		}
 	}()
